@@ -380,7 +380,11 @@ def conv_mat(fr):
     disjoint = all(a[0] + a[1] <= b[0] or b[0] + b[1] <= a[0] for i, a in enumerate(spans) for b in spans[i + 1:])
     return {'kind': 'mat', 'op': op, 'impl': impl, 'src': src, 'n_results': len(fr['result']),
             'hyp': {'start_le_end': all(t[0] <= t[1] for t in live), 'disjoint_out': disjoint,
-                    'inside': all(t[1] <= len(src) for t in live)},
+                    'inside': all(t[1] <= len(src) for t in live),
+                    # non-emptiness on the date-time path (C01.mergeAllTokens_nonempty / C12.mergedExtract_disjoint_of_tokens):
+                    # nothing in the merge code forbids an empty token — monitored here
+                    'nonempty_tokens': all(t[0] < t[1] for t in live),
+                    'nonempty_out': all(r['length'] > 0 for r in fr['result'])},
             'problem': 'result type is not the extractor name' if bad_type else None, 'ext': name}
 
 
@@ -431,6 +435,18 @@ def conv_phone(fr):
                     'hyp': {'prefix_inside': 0 <= ms <= me <= b['start'] - 1}, 'problem': None, 'ext': 'phone'})
     return out
 
+
+
+def _laminar(spans):
+    """RTV.Merged.Laminar for every pair: disjoint, or one inside the other"""
+    for i, (a, al) in enumerate(spans):
+        for (b, bl) in spans[i + 1:]:
+            if a + al <= b or b + bl <= a:
+                continue
+            if (a <= b and b + bl <= a + al) or (b <= a and a + al <= b + bl):
+                continue
+            return False
+    return True
 
 
 def conv_mext(fr):
@@ -505,7 +521,12 @@ def conv_mext(fr):
     inside = all(0 <= r['start'] and r['start'] + r['length'] <= len(src) and
                  r['text'] == src[r['start']:r['start'] + r['length']] for r in fr['result'])
     return {'kind': 'mext', 'op': op, 'impl': impl, 'src': src, 'n_results': len(fr['result']),
-            'hyp': {'disjoint_out': disjoint, 'inside_and_slice_out': inside, 'mods': len(ops)},
+            'hyp': {'disjoint_out': disjoint, 'inside_and_slice_out': inside, 'mods': len(ops),
+                    # hypotheses hp / hl of mergedExtract_disjoint_of_laminar on this call: every candidate non-empty,
+                    # any two candidates nested or apart; and the output non-empty (C01.mergedExtract_nonempty)
+                    'inputs_nonempty': all(l_ > 0 for i in inputs for (s_, l_, _t) in i),
+                    'laminar_inputs': _laminar([(s_, l_) for i in inputs for (s_, l_, _t) in i]),
+                    'nonempty_out': all(r['length'] > 0 for r in fr['result'])},
             'problem': None, 'ext': type(ext).__name__, 'crossings': crossings,
             'out_spans': [[r['start'], r['length'], r['type']] for r in fr['result']], 'n_mods': len(ops)}
 
